@@ -17,7 +17,9 @@ def contract():
 
 
 def snapshot(sensors):
-    return tuple((k, C.snap_persisted(s)) for k, s in sensors.items())
+    from mysensors.sensor import Sensor
+    return tuple((k, C.snap_persisted(s) if isinstance(s, Sensor)
+                  else ("not a Sensor object", type(s).__name__)) for k, s in sensors.items())
 
 
 def rebuild(state):
@@ -38,10 +40,81 @@ def rebuild(state):
     return out
 
 
+def to_json(w, enc, obj):
+    """json.dump data model: dict keys become strings, unknown objects go through default()."""
+    if obj is None or isinstance(obj, (bool,)):
+        return obj
+    if w.symbolic:
+        from symex.core import SBool, SInt, SStr
+        if isinstance(obj, (SInt, SStr, SBool)):
+            return obj
+    if isinstance(obj, (int, str)):
+        return obj
+    if isinstance(obj, dict):
+        out = {}
+        for k, v in obj.items():
+            if isinstance(k, str) or (w.symbolic and type(k).__name__ == "SStr"):
+                key = k
+            elif k is None or isinstance(k, bool):
+                raise TypeError("unsupported JSON key in the model")
+            else:
+                key = w.call(str, k)
+            out[key] = to_json(w, enc, v)
+        return out
+    if isinstance(obj, (list, tuple, deque)):
+        return [to_json(w, enc, x) for x in obj]
+    return to_json(w, enc, w.call(enc.default, obj))
+
+
+def from_json(w, dec, tree):
+    """json.load data model: object_hook applied bottom-up to every decoded object."""
+    if isinstance(tree, dict):
+        inner = {}
+        for k, v in tree.items():
+            inner[k] = from_json(w, dec, v)
+        return w.call(dec.dict_to_object, inner)
+    if isinstance(tree, list):
+        return [from_json(w, dec, x) for x in tree]
+    return tree
+
+
+def pickled(w, obj, memo=None):
+    """pickle round trip: identity on the object graph modulo __getstate__/__setstate__."""
+    from mysensors.sensor import ChildSensor, Sensor
+    if isinstance(obj, dict):
+        return {k: pickled(w, v) for k, v in obj.items()}
+    if isinstance(obj, deque):
+        return deque(pickled(w, x) for x in obj)
+    if isinstance(obj, (list, tuple)):
+        return type(obj)(pickled(w, x) for x in obj)
+    if isinstance(obj, (Sensor, ChildSensor)):
+        getstate = getattr(type(obj), "__getstate__", None)
+        if "__getstate__" in type(obj).__dict__:
+            state = w.call(obj.__getstate__)
+        else:
+            state = dict(obj.__dict__)
+        state = pickled(w, state)
+        new = type(obj).__new__(type(obj))
+        w.call(new.__setstate__, state)
+        return new
+    return obj
+
+
+def through_hooks(w, fmt, sensors):
+    """What the format's loader hands back for a file that holds `sensors`: the abstract
+    serialiser's round trip through the repository's REAL hooks (JSON encoder default() / decoder
+    dict_to_object, or __getstate__ / __setstate__), so that a defect in a hook is visible to every
+    harness that restarts from a file - not only to C11."""
+    if fmt == "json":
+        from mysensors.persistence import MySensorsJSONDecoder, MySensorsJSONEncoder
+        return from_json(w, MySensorsJSONDecoder(), to_json(w, MySensorsJSONEncoder(), sensors))
+    return pickled(w, sensors)
+
+
 def make_fs(w, fmt):
     fs = FS(w, fmt, contract()[0])
     fs.snapshot = snapshot
-    fs.rebuild = rebuild
+    fs.rebuild = lambda state: through_hooks(w, fs.fmt, rebuild(state))
     return fs
 
 
